@@ -419,8 +419,9 @@ class VectorizedOptimizer(Generic[_S]):
           prior_features,
       )
       prior_rewards = eval_score_fn(prior_features)
+      prior_is_valid = jnp.logical_and(continuous_mask, categorical_mask)
       prior_rewards = jnp.where(
-          jnp.logical_and(continuous_mask, categorical_mask),
+          prior_is_valid,
           prior_rewards,
           -jnp.inf * jnp.ones_like(prior_rewards),
       )
@@ -451,7 +452,6 @@ class VectorizedOptimizer(Generic[_S]):
       return new_state, new_best_results, new_seed
 
     init_seed, loop_seed = jax.random.split(seed)
-    # TODO: Consider initializing with prior features/rewards.
     init_best_results = VectorizedStrategyResults(
         rewards=-jnp.inf * jnp.ones([count]),
         features=VectorizedOptimizerInput(
@@ -473,6 +473,32 @@ class VectorizedOptimizer(Generic[_S]):
             ),
         ),
     )
+    if prior_features is not None:
+      # The prior points have been scored already: seed the best results with
+      # them, so that the result is never worse than the best prior even when
+      # the strategy ignores the priors or cannot re-evaluate all of them
+      # within `max_evaluations`. Padded (invalid) prior rows have a reward of
+      # -inf; zero their features (the padding value is NaN / -1).
+      init_best_results = self._update_best_results(
+          init_best_results,
+          count,
+          jax.tree_util.tree_map(
+              lambda feat: jnp.where(
+                  prior_is_valid[:, jnp.newaxis, jnp.newaxis],
+                  feat,
+                  jnp.zeros_like(feat),
+              ),
+              VectorizedOptimizerInput(
+                  continuous=prior_features.continuous.astype(
+                      self.dtype.continuous
+                  ),
+                  categorical=prior_features.categorical.astype(
+                      self.dtype.categorical
+                  ),
+              ),
+          ),
+          prior_rewards,
+      )
     init_args = (
         self.strategy.init_state(
             init_seed,
